@@ -50,11 +50,11 @@ def _seed_day(seed: int, k: int) -> date:
 def _days(tier, seed):
     days = [_seed_day(seed, 0), date(2016, 2, 29), date(2099, 12, 31), date(2021, 3, 30)]
     if tier == "thorough":
-        days += [date(y, 12, 31) for y in range(1901, 2100, 11)]
-        days += [date(y, 1, 1) for y in range(1901, 2100, 13)]
-        days += [date(y, 2, 29) for y in range(1904, 2100, 4)]
-        days += [date(y, 3, 1) for y in range(1903, 2100, 9)]
-        days += [_seed_day(seed, k) for k in range(1, 30)]
+        days += [date(y, 12, 31) for y in range(1901, 2100, 22)]
+        days += [date(y, 1, 1) for y in range(1901, 2100, 33)]
+        days += [date(y, 2, 29) for y in range(1904, 2100, 16)]
+        days += [date(y, 3, 1) for y in range(1903, 2100, 27)]
+        days += [_seed_day(seed, k) for k in range(1, 12)]
         days += [date(2015, 6, 30), date(2015, 7, 1), date(2016, 12, 31), date(2017, 1, 1), date(1901, 1, 1)]
     out, seen = [], set()
     for d in days:
@@ -70,7 +70,7 @@ DUR_STARTS_Q = [
     datetime(2019, 12, 31, 23, 59, 29),
     datetime(2020, 2, 29, 12, 30, 59),
 ]
-DUR_STEPS_Q = [2, 60, 300, 450]
+DUR_STEPS_Q = [2, 60, 300, 450, 3600]
 
 
 def _dur_lattice(tier, seed):
@@ -87,6 +87,9 @@ def _dur_lattice(tier, seed):
             ds = [step, 3 * step, 3 * step + 1, 10 * step - 1, 4 * step + step // 2]
             if step <= 450:
                 ds.append(3600)
+            if step >= 300:
+                # durations of a day and more (the days part of the timedelta matters): 26 h, exactly 1 day, 2 days + 1 step
+                ds += [93600, 86400, 2 * 86400 + step]
             for d in ds:
                 if d // step > 1800:
                     continue
